@@ -229,6 +229,13 @@ struct GenOpts {
     int heavy_tail_pm = 0;         // per-mille: bimodal weights (few very heavy edges) replace the all-unit scheme
     int boundary_pm = 0;           // per-mille: a sparse graph whose size sits on a power-of-two boundary
     int boundary_max_n = 257;
+    int mid_pm = 0;                // per-mille: 10..15 vertices, m <= 2.4 n (dimension 5..20: support vectors with 4..n-1 signed edges,
+                                   // the hidden-edge strategy of the signed search; several candidate cycles close in weight)
+    int two_level_pm = 0;          // per-mille: two-level weights (20-40 % of the edges in H..2H with H = 5..10, the rest 1..3): many near ties
+    int small_dense_pm = 0;        // per-mille: 6..9 vertices, m = n+4..n+12 random pairs, two-level weights: many light cycles close in weight,
+                                   // support vectors with 4..n-1 signed edges, heavy edges at least as heavy as whole light cycles
+    int subdiv_pm = 0;             // per-mille: a small skeleton (dimension 1..6) whose edges are subdivided into chains of up to 40
+                                   // edges (n up to ~210): cycles of 60..200 edges, i.e. far longer than any support vector
     int dense_pm = 0;              // per-mille: 13..17 vertices, (nearly) complete: candidate lists of the tree variants reach
                                    // 300..1800 entries, beyond the grain / block sizes (256, 1000) parallel code typically uses
 };
@@ -323,7 +330,13 @@ inline void assign_weights(Rng &r, GGraph &g, const GenOpts &o) {
         int64_t lim = (int64_t) 2000000000 / std::max<int64_t>(1, (int64_t) std::max(1, g.n) * std::max(1, g.m()));
         cap = std::max<int64_t>(1, std::min(cap, lim));
     }
-    if (scheme < 25 && g.heavy_tail) {
+    if (o.two_level_pm > 0 && r.chance((unsigned) o.two_level_pm)) {
+        int64_t H = std::min<int64_t>(cap, r.range(5, 10)); unsigned f = (unsigned) r.range(200, 400);
+        if (r.chance(500)) { H = std::min<int64_t>(cap, 8); f = 333; }
+        if (H < 4) H = std::min<int64_t>(cap, 4);
+        for (auto &e : g.e) e.w = r.chance(f) ? r.range(H, std::min<int64_t>(cap, 2 * H)) : r.range(1, std::min<int64_t>(cap, 3));
+    }
+    else if (scheme < 25 && g.heavy_tail) {
         // bimodal: mostly light edges, a few very heavy ones (approximation ratios get tight when a
         // cycle is closed over a heavy edge although a light detour exists)
         int64_t H = std::min<int64_t>(cap, (int64_t) r.pick(std::vector<int> { 100, 500, 1000 }));
@@ -388,6 +401,56 @@ inline GGraph gen_boundary_graph(Rng &r, const GenOpts &o) {
 // One graph in the domain of C01/C02 (simple, positive weights, exact sums) within the bounds.
 inline GGraph gen_graph(Rng &r, const GenOpts &o) {
     if (o.boundary_pm > 0 && r.chance((unsigned) o.boundary_pm)) return gen_boundary_graph(r, o);
+    if (o.subdiv_pm > 0 && r.chance((unsigned) o.subdiv_pm)) {
+        EL skel; std::string f; int sn = 0;
+        for (int tries = 0; tries < 20; tries++) {
+            skel.clear(); sn = (int) r.range(3, 5);
+            fam_gnp(r, sn, 0.5 + 0.5 * r.unit(), skel); dedup(skel);
+            int d = (int) skel.size() - sn + 1;
+            if (d >= 1 && d <= 6) break;
+        }
+        EL sel; int next = sn;
+        bool all_long = r.chance(500);
+        for (auto &q : skel) {
+            int L = (all_long || r.chance(600)) ? (int) r.range(20, 40) : (int) r.range(1, 4);
+            if (next > 170) L = (int) r.range(1, 3);      // keep n below ~210: the tree variants are cubic in n under ASan
+            int prev = q.first;
+            for (int k = 1; k < L; k++) { sel.emplace_back(prev, next); prev = next++; }
+            sel.emplace_back(prev, q.second);
+        }
+        GGraph g = from_el(next, sel); g.family = "subdivided";
+        GenOpts o2 = o; o2.max_weight = std::min<int64_t>(o.max_weight, 20);
+        assign_weights(r, g, o2);
+        if (r.chance(500)) relabel_and_shuffle(r, g);     // else: chain vertices and edges keep consecutive numbers
+        return g;
+    }
+    if (o.small_dense_pm > 0 && r.chance((unsigned) o.small_dense_pm)) {
+        EL sel; int sn = (int) r.range(6, 9);
+        int sm = std::min(sn * (sn - 1) / 2, sn + (int) r.range(4, 12));
+        std::set<std::pair<int,int>> seen;
+        while ((int) sel.size() < sm) { int u = (int) r.below(sn), v = (int) r.below(sn); if (u == v) continue; if (u > v) std::swap(u, v); if (seen.insert({u, v}).second) sel.emplace_back(u, v); }
+        GGraph g = from_el(sn, sel); g.family = "small_dense";
+        GenOpts o2 = o; o2.two_level_pm = 1000;
+        assign_weights(r, g, o2);
+        relabel_and_shuffle(r, g);
+        return g;
+    }
+    if (o.mid_pm > 0 && r.chance((unsigned) o.mid_pm)) {
+        // measured on an independently seeded pruning slip (s_c02c): the share of inputs on which it shows grows from
+        // < 1/60000 (n 6..8) over 1/5000 (n 10..15, m ~ 2n) to 1/900 (n 20..30, m ~ 2n) with two-level weights
+        EL mel; int mn = r.chance(500) ? (int) r.range(10, 15) : (int) r.range(16, 30);
+        int target = std::min(mn * (mn - 1) / 2, 2 * mn + (int) r.range(0, 20));
+        if (r.chance(300)) target = mn + (int) r.range(5, 12);
+        fam_tree(r, mn, mel);
+        std::set<std::pair<int,int>> seen; for (auto &q : mel) seen.insert({ std::min(q.first, q.second), std::max(q.first, q.second) });
+        int guard = 0;
+        while ((int) mel.size() < target && guard++ < 4000) { int u = (int) r.below(mn), v = (int) r.below(mn); if (u == v) continue; if (seen.insert({ std::min(u, v), std::max(u, v) }).second) mel.emplace_back(u, v); }
+        GGraph g = from_el(mn, mel); g.family = "mid";
+        GenOpts o2 = o; o2.max_weight = std::min<int64_t>(o.max_weight, 1000); o2.two_level_pm = std::max(o.two_level_pm, 700);
+        assign_weights(r, g, o2);
+        relabel_and_shuffle(r, g);
+        return g;
+    }
     if (o.dense_pm > 0 && r.chance((unsigned) o.dense_pm)) {
         EL del; int dn = (int) r.range(13, 17);
         if (r.chance(400)) fam_complete(dn, del); else fam_gnp(r, dn, 0.7 + 0.3 * r.unit(), del);
